@@ -30,7 +30,6 @@ inductive Err where
   | oob          -- read past the end of a block of cells
   | undef        -- the C code uses an indeterminate value (NULL result ignored, wrong union member,
                  -- negative length) or runs into `assert(false)`-only territory
-  | overflow     -- signed integer overflow (undefined behaviour in C)
   | exit         -- the code calls `exit(1)`
   | nan          -- float arithmetic on a NaN operand (not modelled)
   | fuel         -- the loop bound given to the model was too small (never a property of the code)
